@@ -54,13 +54,15 @@ func (c *crashDB) Update(fn func(tx database.Tx) error) error {
 }
 
 type crashNode struct {
-	f     *Factory
-	dir   string
-	real  database.DB
-	wrap  *crashDB
-	chain *blockchain.BlockChain
-	cache uint64
-	notes []Note
+	f       *Factory
+	dir     string
+	real    database.DB
+	wrap    *crashDB
+	chain   *blockchain.BlockChain
+	cache   uint64
+	notes   []Note
+	prune   uint64 // prune target in bytes (0: off)
+	maxFile uint32 // block-file size limit (0: default)
 }
 
 func (n *crashNode) openChain(crashAt int) (err error, crashed bool) {
@@ -77,7 +79,10 @@ func (n *crashNode) openChain(crashAt int) (err error, crashed bool) {
 			panic(r)
 		}
 	}()
-	chain, e := blockchain.New(&blockchain.Config{DB: n.wrap, ChainParams: fresh, TimeSource: &FixedTime{T: n.f.Now()}, UtxoCacheMaxSize: n.cache})
+	if n.maxFile != 0 {
+		setMaxBlockFileSize(n.real, n.maxFile)
+	}
+	chain, e := blockchain.New(&blockchain.Config{DB: n.wrap, ChainParams: fresh, TimeSource: &FixedTime{T: n.f.Now()}, UtxoCacheMaxSize: n.cache, Prune: n.prune})
 	if e != nil {
 		return e, false
 	}
@@ -92,12 +97,12 @@ func (n *crashNode) openChain(crashAt int) (err error, crashed bool) {
 	return nil, false
 }
 
-func newCrashNode(f *Factory, cache uint64, crashAt int) (*crashNode, error) {
+func newCrashNode(f *Factory, cache uint64, crashAt int, prune uint64, maxFile uint32) (*crashNode, error) {
 	dir, err := os.MkdirTemp(scratchRoot(), "verif-crash-")
 	if err != nil {
 		return nil, err
 	}
-	n := &crashNode{f: f, dir: dir, cache: cache}
+	n := &crashNode{f: f, dir: dir, cache: cache, prune: prune, maxFile: maxFile}
 	n.real, err = database.Create("ffldb", filepath.Join(dir, "db"), f.Params.Net)
 	if err != nil {
 		os.RemoveAll(dir)
@@ -108,6 +113,13 @@ func newCrashNode(f *Factory, cache uint64, crashAt int) (*crashNode, error) {
 		n.close()
 		return nil, err
 	}
+	for _, pb := range f.Pre {
+		if _, _, err := n.chain.ProcessBlock(btcutil.NewBlock(pb.MsgBlock()), blockchain.BFNone); err != nil {
+			n.close()
+			return nil, fmt.Errorf("preamble block refused: %w", err)
+		}
+	}
+	n.notes = nil
 	n.wrap.commits = 0
 	n.wrap.crashAt = crashAt
 	return n, nil
@@ -197,11 +209,13 @@ func (n *crashNode) step(o crashOp) (res string, crashed bool) {
 }
 
 // asNode lets the view/utxo comparators run on the recovered chain.
-func (n *crashNode) asNode() *Node { return &Node{F: n.f, Chain: n.chain, DB: n.real} }
+func (n *crashNode) asNode() *Node {
+	return &Node{F: n.f, Chain: n.chain, DB: n.real, Pruned: n.prune != 0}
+}
 
 // crashWorkload enumerates every crash point of one workload (a Chain.tla
 // path) and, in nested mode, every crash point of each recovery.
-func crashWorkload(ctx *vrun.Ctx, f *Factory, path []tlc.Step, cache uint64, nested bool, coll *traceCollector) error {
+func crashWorkload(ctx *vrun.Ctx, f *Factory, path []tlc.Step, cache uint64, nested bool, coll *traceCollector, prune uint64, maxFile uint32) error {
 	var ops []crashOp
 	for _, st := range path {
 		last := st.To.State["last"]
@@ -215,12 +229,12 @@ func crashWorkload(ctx *vrun.Ctx, f *Factory, path []tlc.Step, cache uint64, nes
 	}
 	final := path[len(path)-1].To.State
 	// 1. uninterrupted run: commit count per op, tips made active per op, acknowledgements
-	base, err := newCrashNode(f, cache, -1)
+	base, err := newCrashNode(f, cache, -1, prune, maxFile)
 	if err != nil {
 		return err
 	}
 	var recorded []*commitEv
-	if coll != nil {
+	if coll != nil && prune == 0 {
 		base.wrap.rec = &recorded
 		base.wrap.f = f
 	}
@@ -245,7 +259,7 @@ func crashWorkload(ctx *vrun.Ctx, f *Factory, path []tlc.Step, cache uint64, nes
 		ackAfter[i] = copySet(ack)
 	}
 	total := base.wrap.commits
-	if coll != nil {
+	if coll != nil && prune == 0 {
 		coll.add(f.Sc, recorded)
 	}
 	finalTip := f.ID(&base.chain.BestSnapshot().Hash)
@@ -255,7 +269,7 @@ func crashWorkload(ctx *vrun.Ctx, f *Factory, path []tlc.Step, cache uint64, nes
 		return nil
 	}
 	desc := func(k int) string {
-		return fmt.Sprintf("scenario %s cache=%d workload=%v crash after durable commit %d of %d", f.String(), cache, ops, k, total)
+		return fmt.Sprintf("scenario %s cache=%d prune=%d workload=%v crash after durable commit %d of %d", f.String(), cache, prune, ops, k, total)
 	}
 	for k := 0; k < total; k++ {
 		// which op is interrupted by a crash after k commits?
@@ -308,7 +322,7 @@ func crashWorkload(ctx *vrun.Ctx, f *Factory, path []tlc.Step, cache uint64, nes
 			return true
 		}
 		run := func(recoveryCrashAt int) (recCommits int, err error) {
-			n, err := newCrashNode(f, cache, k)
+			n, err := newCrashNode(f, cache, k, prune, maxFile)
 			if err != nil {
 				return 0, err
 			}
